@@ -420,7 +420,26 @@ fn odd_content(t: &mut crate::supply::SupplyTrace, r: &mut Rng) -> String {
 
 pub fn run_c14(tier: Tier, seed: u64, index: u64, scratch: &Scratch, rec: &mut RunRecord) {
     let mut r = Rng::stream(seed, "faults");
-    let kind = r.weighted(&[45, 25, 15, 15]);
+    let kind = r.weighted(&[42, 24, 14, 14, 6]);
+    if kind == 4 {
+        // a recorded tree with things that are not regular files (named pipe, link to it): recording must
+        // terminate and must not crash; what it records is C18's business
+        let mut t = crate::recorder::gen_trace(seed, tier);
+        if t.stream.is_none() {
+            let d = t.tree.iter().find_map(|op| if let crate::recorder::TreeOp::Dir(d) = op { Some(d.clone()) } else { None }).unwrap_or_else(|| "d".into());
+            t.tree.push(crate::recorder::TreeOp::Fifo(format!("{d}/pipe")));
+            t.tree.push(crate::recorder::TreeOp::Link { path: format!("{d}/to-pipe"), target: "pipe".into(), absolute: false });
+            if r.chance(1, 2) {
+                t.tree.push(crate::recorder::TreeOp::Link { path: format!("{d}/to-pipe-abs"), target: format!("{d}/pipe"), absolute: true });
+            }
+            t.labels.push("FIFO-IN-TREE".into());
+        }
+        write_current(scratch, &Trace::Recorder(t.clone()));
+        let before = rec.own.len();
+        let _ = crate::recorder::replay("C14", &t, scratch, rec);
+        let _ = before;
+        return;
+    }
     match kind {
         0 | 1 => {
             let opts = GenOpts { ed_only_pct: if tier == Tier::Quick { 100 } else { 85 }, delegation_pct: 20, max_depth: 2, ..GenOpts::default() };
@@ -471,6 +490,23 @@ pub fn write_current(scratch: &Scratch, t: &Trace) {
     let p = std::path::PathBuf::from(format!("/dev/shm/scsim-current-{}.json", std::process::id()));
     let _ = std::fs::write(p, serde_json::to_vec(t).unwrap_or_default());
     let _ = scratch;
+}
+
+/// Cheap variant for the hot path: the trace is serialized without going through the `Trace` enum's clone.
+pub fn write_current_supply(t: &crate::supply::SupplyTrace) {
+    let p = format!("/dev/shm/scsim-current-{}.json", std::process::id());
+    if let Ok(mut v) = serde_json::to_vec(t) {
+        let mut out = Vec::with_capacity(v.len() + 16);
+        out.extend_from_slice(b"{\"Supply\":");
+        out.append(&mut v);
+        out.push(b'}');
+        let _ = std::fs::write(p, out);
+    }
+}
+
+pub fn write_current_trace(t: &Trace) {
+    let p = format!("/dev/shm/scsim-current-{}.json", std::process::id());
+    let _ = std::fs::write(p, serde_json::to_vec(t).unwrap_or_default());
 }
 
 pub fn replay(prop: &str, t: &BytesTrace, rec: &mut RunRecord) -> Vec<Finding> {
